@@ -101,6 +101,11 @@ def stepLine (s : St) (line : String) : St × String :=
             (.mgr n (compact n r.1) now, "f=" ++ showFires r.2.1 ++ " " ++ summary n r.1 now)
           else (.mgr n r.1 now, "nonterm")
         | _, _ => bad
+      | "qmin", [now] =>
+        match now.toInt? with
+        | some now =>
+          (.mgr n m now, match m.minimalInterval now with | some d => toString d | none => "fault")
+        | none => bad
       | "q", [now] =>
         match now.toInt? with
         | some now => (.mgr n m now, summary n m now)
